@@ -21,6 +21,8 @@ from harness import common, tlc  # noqa: E402
 REGISTRY = {
     "C20": ("harness.eng_tokenbucket", "check"),
     "C19": ("harness.eng_bars", "check"),
+    "C14": ("harness.eng_runtime", "check"),
+    "C15": ("harness.eng_runtime", "check"),
     **{c: ("harness.eng_dispatcher", "check") for c in ("C03", "C12", "C13")},
     **{c: ("harness.eng_exchange", "check") for c in
        ("C01", "C02", "C04", "C05", "C06", "C07", "C08", "C09", "C10", "C11")},
